@@ -101,6 +101,7 @@ type segment struct {
 
 type concResult struct {
 	ID         int                   `json:"id"`
+	Beh        int                   `json:"beh"` // line (1-based) of the first behaviour of the input that concretises to this run
 	Segments   []*segment            `json:"segments,omitempty"` // more than one: run-time strategy changes
 	Layout     string                `json:"layout"`
 	Strategy   string                `json:"strategy"`
@@ -292,6 +293,7 @@ func progsKey(progs map[string][]modelReq) string {
 
 type scenario struct {
 	id    int
+	beh   int
 	b     *behaviour
 	segs  []*segment
 	conc  bool
@@ -346,7 +348,9 @@ func concurrent(args []string) error {
 	layouts := map[string][]*scenario{}
 	var layoutOrder []string
 	index := map[string]*scenario{}
+	lineNo := 0
 	if err := cli.ReadNDJSON(*in, func(line []byte) error {
+		lineNo++
 		b := &behaviour{}
 		if err := json.Unmarshal(line, b); err != nil {
 			return err
@@ -375,7 +379,7 @@ func concurrent(args []string) error {
 		}
 		sc := index[sk]
 		if sc == nil {
-			sc = &scenario{b: b, segs: segs, conc: conc, wins: map[string]bool{}}
+			sc = &scenario{b: b, beh: lineNo, segs: segs, conc: conc, wins: map[string]bool{}}
 			index[sk] = sc
 			if _, ok := layouts[lk]; !ok {
 				layoutOrder = append(layoutOrder, lk)
@@ -439,6 +443,7 @@ func concurrent(args []string) error {
 			}
 			res := env.runScenario(lk, sc, n, *fan, kindOf, sc.id*7)
 			res.ID = sc.id
+			res.Beh = sc.beh
 			res.Behaviours = sc.count
 			for wn := range sc.wins {
 				res.Windows = append(res.Windows, wn)
